@@ -2,6 +2,7 @@ SPECIFICATION Spec
 CONSTANTS
   W = 4
   Anns = {"both"}
+  Devs = {"all"}
   Sizes = {0, 1, 2, 3, 4, 5, 6, 7}
   MaxFaults = 1
   MaxInject = 0
